@@ -39,9 +39,9 @@ CLAIMS = {
               'must end in exactly the folder read raw, the programs reproduce those traces, the verified monitor accepts every event boundary; 180+ '
               'random histories over 14 operation kinds and all option combinations are compared with a dict after EVERY step '
               '(has/get/bulk/uneven bulk streams/meta/list/count/NotExistent, raw reader, validate). COMPOSED: C02_any_history_is_a_map (History.history_refines) - ANY finite '
-              'sequence of add / pack / direct-to-pack / import / delete / clean programs, each run from the world the previous one left, ends in a world '
-              'satisfying the invariant in which EVERY key reads back exactly what the fold of the map updates holds. PARTIAL: repack, loosen_object and '
-              'pack roll-over inside one call are not operations of that theorem (repack: C11 theorems; the rest: histories).'),
+              'sequence of add / pack / direct-to-pack / import / delete / clean / repack programs, each run from the world the previous one left, ends in a world '
+              'satisfying the invariant in which EVERY key reads back exactly what the fold of the map updates holds. PARTIAL: loosen_object and '
+              'pack roll-over inside one call are not operations of that theorem (decided by the histories).'),
         design='4/C02'),
     'C03': dict(
         technique='Coq: invariant + sound boolean checker + verified trace monitor run on implementation traces; independent raw reader',
